@@ -201,6 +201,15 @@ def run_case(case, ctx):
     em.remove_overlapping(min_distance=md, grid=grid)
     ctx.op()
     ctx.check("C10.idempotent", len(em) == k and all(a is before[i] for a, i in zip(em, surv)), {"before": k, "after": len(em)}, tags)
+    # the distance queries after the removal(s) describe the survivors (no state left behind by the removal)
+    M2 = em.get_pairwise_distances(subtract_radius=True, grid=grid)
+    M3 = em.get_pairwise_distances(grid=grid)
+    ctx.op(2)
+    idx = np.array(surv, dtype=int)
+    S2 = S[np.ix_(idx, idx)] if len(idx) else np.zeros((0, 0))
+    D2 = D[np.ix_(idx, idx)] if len(idx) else np.zeros((0, 0))
+    ok = M2.shape == S2.shape and bool(np.all(np.diag(M2) == 0)) and bool(np.allclose(M2, S2, rtol=1e-12, atol=1e-12)) and bool(np.allclose(M3, D2, rtol=1e-12, atol=1e-12)) and bool(np.all(np.diag(M3) == 0))
+    ctx.check("C10.matrix", ok, {"after": "remove_overlapping", "got": M2, "want": S2}, tags)
     if amb:
         ctx.skip("pair-at-min-distance-knife-edge")
 
